@@ -67,13 +67,14 @@ def all_props():
 
 
 class Lock:
-    def __init__(self, name):
+    def __init__(self, name, shared=False):
         os.makedirs(WORK, exist_ok=True)
         self.path = os.path.join(WORK, name)
+        self.shared = shared
 
     def __enter__(self):
-        self.f = open(self.path, "w")
-        fcntl.flock(self.f, fcntl.LOCK_EX)
+        self.f = open(self.path, "a")
+        fcntl.flock(self.f, fcntl.LOCK_SH if self.shared else fcntl.LOCK_EX)
         return self
 
     def __exit__(self, *a):
@@ -348,7 +349,12 @@ def main():
         except OSError:
             pass
     else:
-        au = audit(cfg, pid, wdir, log)
+        with Lock("coq.lock", shared=True):
+            au = audit(cfg, pid, wdir, log)
+        if any("inconsistent assumptions" in x for x in au["problems"]):
+            ok, msg = coq_build(cfg, log)
+            with Lock("coq.lock", shared=True):
+                au = audit(cfg, pid, wdir, log)
         if au["problems"]:
             proof_broken = "; ".join(au["problems"])
 
@@ -367,7 +373,15 @@ def main():
         if impl is None:
             harness_broken = err
         elif proof_broken is None or os.path.exists(os.path.join(TH, pid, "Corr.vo")):
-            mism, cerrs = run_cases(wdir, log, cfg.get("cases_timeout", {}).get(tier, 1200))
+            # shared lock: no concurrent check may rebuild .vo files while the shards are being evaluated
+            with Lock("coq.lock", shared=True):
+                mism, cerrs = run_cases(wdir, log, cfg.get("cases_timeout", {}).get(tier, 1200))
+            if any("inconsistent assumptions" in e for e in cerrs):
+                # a concurrent rebuild slipped in between build and evaluation: rebuild and evaluate once more
+                ok2, _ = coq_build(cfg, log)
+                if ok2:
+                    with Lock("coq.lock", shared=True):
+                        mism, cerrs = run_cases(wdir, log, cfg.get("cases_timeout", {}).get(tier, 1200))
 
     findings = load_findings(pid)
     nrep = 0
